@@ -25,6 +25,7 @@ type docGen struct {
 	nvar  int
 	frags []string
 	nfrag int
+	nalias int
 }
 
 func (d *docGen) fault() bool {
@@ -103,8 +104,8 @@ func (d *docGen) literalNN(t *gTy, depth int, vars bool) string {
 	case '!':
 		return d.literalNN(t.Of, depth, vars)
 	case 'l':
-		if d.r.Chance(1, 6) {
-			return d.literalNN(t.Of, depth, vars) // a single item for a list
+		if depth == 0 && d.r.Chance(1, 6) {
+			return d.literalNN(t.Of, depth, vars) // a single item for a list (not inside a list literal)
 		}
 		n := d.r.Intn(3)
 		if depth > 2 {
@@ -157,7 +158,7 @@ func (d *docGen) variable(t *gTy, hasDefault bool) string {
 	name := fmt.Sprintf("v%d", d.nvar)
 	vt := t
 	switch {
-	case t.Kind == '!' && d.r.Chance(1, 2):
+	case t.Kind == '!' && (hasDefault && d.r.Chance(2, 3) || d.r.Chance(1, 10)):
 		// a nullable variable in a non-null position: allowed only if the position or the
 		// variable has a (non-null) default
 		vt = t.Of
@@ -182,6 +183,22 @@ func (d *docGen) directives(loc string) string {
 		return ""
 	}
 	dir := rng.Pick(d.r, d.s.Dirs)
+	if !d.r.Chance(1, 8) {
+		// mostly one that is allowed here
+		var ok []*gDir
+		for _, x := range d.s.Dirs {
+			for _, l := range x.Locs {
+				if l == loc {
+					ok = append(ok, x)
+					break
+				}
+			}
+		}
+		if len(ok) == 0 {
+			return ""
+		}
+		dir = rng.Pick(d.r, ok)
+	}
 	var args []string
 	for _, a := range dir.Args {
 		required := a.Ty.Kind == '!' && a.Default == nil
@@ -193,6 +210,47 @@ func (d *docGen) directives(loc string) string {
 	if len(args) > 0 {
 		out += "(" + strings.Join(args, ", ") + ")"
 	}
+	return out
+}
+
+// overlapping: composite types that share a possible (visible) object with t, t itself included
+func (d *docGen) overlapping(t *gType) []string {
+	possible := func(x *gType) map[string]bool {
+		out := map[string]bool{}
+		switch x.Kind {
+		case "object":
+			out[x.Name] = true
+		case "union":
+			for _, m := range x.Members {
+				out[m] = true
+			}
+		case "interface":
+			for _, o := range d.s.Types {
+				if o.Kind == "object" {
+					for _, i := range o.Ifaces {
+						if i == x.Name {
+							out[o.Name] = true
+						}
+					}
+				}
+			}
+		}
+		return out
+	}
+	mine := possible(t)
+	out := []string{t.Name}
+	for _, x := range d.s.Types {
+		if x == t || !(x.Kind == "object" || x.Kind == "interface" || x.Kind == "union") || !d.visT(x) {
+			continue
+		}
+		for o := range possible(x) {
+			if mine[o] {
+				out = append(out, x.Name)
+				break
+			}
+		}
+	}
+	sortStrings(out)
 	return out
 }
 
@@ -237,10 +295,10 @@ func (d *docGen) selection(t *gType, depth int) string {
 	if depth < 3 && (t.Kind != "object" || d.r.Chance(1, 4)) {
 		for i, n := 0, d.r.Intn(3); i < n; i++ {
 			var target string
-			switch {
-			case t.Kind == "union" && d.r.Chance(3, 4):
-				target = rng.Pick(d.r, t.Members)
-			case d.r.Chance(1, 8):
+			switch k := d.r.Intn(20); {
+			case k < 14:
+				target = rng.Pick(d.r, d.overlapping(t))
+			case k < 15:
 				target = rng.Pick(d.r, []string{"NoSuchType_", "Int", "__Type"})
 			default:
 				target = rng.Pick(d.r, d.compositeNames())
@@ -267,10 +325,10 @@ func (d *docGen) selection(t *gType, depth int) string {
 }
 
 func (d *docGen) field(f *gField, depth int) string {
-	out := f.Name
-	if d.r.Chance(1, 6) {
-		out = "al" + strconv.Itoa(d.r.Intn(100)) + ": " + out
-	}
+	// every field gets its own response key: merging fields with different arguments is a
+	// validation error of its own, not what this differential is about
+	d.nalias++
+	out := "k" + strconv.Itoa(d.nalias) + ": " + f.Name
 	var args []string
 	for _, a := range f.Args {
 		required := a.Ty.Kind == '!' && a.Default == nil
